@@ -94,7 +94,7 @@ func TestC19_RoundTrip(t *testing.T) {
 			r.Label(k)
 		}
 		r.Label("type:" + c.name)
-		r.Case(c.name+"|"+cl.key(), len(cl) > 0, func() interface{} { return render(c, v) })
+		r.Case(c.name+"|"+cl.key(), len(cl) > 0, sampled("roundtrip", 1, func() interface{} { return render(c, v) }))
 	})
 }
 
@@ -414,9 +414,9 @@ func TestC19_EncodeInjective(t *testing.T) {
 			r.Label("pair:different_values")
 		}
 		r.Label("type:" + c.name)
-		r.Case(fmt.Sprintf("%s|%s|%s", c.name, op, cl.key()), !same, func() interface{} {
+		r.Case(fmt.Sprintf("%s|%s|%s", c.name, op, cl.key()), !same, sampled("injective", 1, func() interface{} {
 			return map[string]string{"mutation": op, "v": render(c, v), "w": render(c, w)}
-		})
+		}))
 	})
 }
 
